@@ -4,7 +4,7 @@
    page aligned.  write(): append to the node that ends exactly at the write position and is not full, else start a
    new node there; repeat until the data is stored.  freeDataUpto(t): unlink leading nodes that end at or before t, but
    never the last node.  lowestOffset()/endOffset(): start of the first / end of the last node, 0 when empty. *)
-EXTENDS MemHdr
+EXTENDS MemHdr, SequencesExt
 CONSTANT Page
 VARIABLES nodes
 ivars == <<nodes, segs, nextW>>
@@ -16,23 +16,26 @@ Store(ns, cur, rem) ==
     ELSE LET cand == {i \in DOMAIN ns : cur > 0 /\ ns[i].e = cur /\ ns[i].e - ns[i].s < Page}
          IN IF cand # {}
             THEN LET i == CHOOSE x \in cand : TRUE
-                     n == Min(rem, Page - (ns[i].e - ns[i].s))
+                     n == Min2(rem, Page - (ns[i].e - ns[i].s))
                  IN Store([ns EXCEPT ![i].e = cur + n], cur + n, rem - n)
-            ELSE LET n == Min(rem, Page) IN Store(InsertNode(ns, [s |-> cur, e |-> cur + n]), cur + n, rem - n)
-RECURSIVE Unlink(_, _)
-Unlink(ns, t) == IF Len(ns) > 1 /\ ns[1].e <= t THEN Unlink(Tail(ns), t) ELSE ns
+            ELSE LET n == Min2(rem, Page) IN Store(InsertNode(ns, [s |-> cur, e |-> cur + n]), cur + n, rem - n)
+(* drop leading nodes that end at or before t, stop at the first that does not, never drop the last one *)
+Unlink(ns, t) == LET lead == {i \in DOMAIN ns : \A j \in 1..i : ns[j].e <= t}
+                     k == Min2(Len(ns) - 1, Cardinality(lead))
+                 IN IF ns = <<>> THEN ns ELSE SubSeq(ns, k + 1, Len(ns))
 Lo(ns) == IF ns = <<>> THEN 0 ELSE ns[1].s
 Hi(ns) == IF ns = <<>> THEN 0 ELSE ns[Len(ns)].e
 NodeSet(ns) == {ns[i] : i \in DOMAIN ns}
-RECURSIVE RunsF(_, _, _)
-RunsF(S, o, end) == IF o >= end THEN <<>> ELSE LET g == SegAt(S, o) IN <<<<g.w, o, Min(g.e, end)>>>> \o RunsF(S, Min(g.e, end), end)
+(* the tagged pieces of the (gap-free) range [o, end) in offset order *)
+RunsF(S, o, end) == LET srt == SetToSortSeq({g \in S : g.s < end /\ g.e > o}, LAMBDA x, y : x.s < y.s)
+                    IN [i \in DOMAIN srt |-> <<srt[i].w, Max2(o, srt[i].s), Min2(end, srt[i].e)>>]
 
 IInit == nodes = <<>> /\ PInit
 IWriteSkip(off, len) == Overlaps(NodeSet(nodes), off, off + len)
 IWrite(off, len) == /\ nodes' = IF IWriteSkip(off, len) THEN nodes ELSE Store(nodes, off, len)
                     /\ Write(off, len, IWriteSkip(off, len), TRUE)
 IFree(t) == /\ nodes' = Unlink(nodes, t)
-            /\ segs' = {[s |-> Max(g.s, Lo(Unlink(nodes, t))), e |-> g.e, w |-> g.w] : g \in {x \in segs : x.e > Lo(Unlink(nodes, t))}}
+            /\ segs' = {[s |-> Max2(g.s, Lo(Unlink(nodes, t))), e |-> g.e, w |-> g.w] : g \in {x \in segs : x.e > Lo(Unlink(nodes, t))}}
             /\ UNCHANGED nextW
 IFreeRet(t) == Lo(Unlink(nodes, t))
 ICopySkip(off) == ~Covered(NodeSet(nodes), off)
